@@ -27,5 +27,7 @@ Cdi(nm, v) == [cdi |-> TRUE, name |-> nm, val |-> v]
 MCInitMaps == { [m |-> {}, isnil |-> TRUE], [m |-> {}, isnil |-> FALSE],
                 [m |-> {Foreign(<<R("f1", 1)>>, <<U("whatever")>>)}, isnil |-> FALSE],
                 [m |-> {Foreign(<<R("f2", 1)>>, <<U("whatever")>>), Cdi(<<R("a", 1), R("_", 1), R("0", 1)>>, <<Q("q3")>>)}, isnil |-> FALSE],
-                [m |-> {Cdi(<<R("z", 1)>>, <<Q("q1"), Q("q2"), U("plain")>>), Cdi(<<R("a", 1), R("_", 1), R("z", 1)>>, <<Q("q2")>>)}, isnil |-> FALSE] }
+                [m |-> {Cdi(<<R("z", 1)>>, <<Q("q1"), Q("q2"), U("plain")>>), Cdi(<<R("a", 1), R("_", 1), R("z", 1)>>, <<Q("q2")>>)}, isnil |-> FALSE],
+                \* a used key whose value is the empty string (one empty, hence unqualified, device name)
+                [m |-> {Cdi(<<R("a", 1), R("_", 1), R("0", 1)>>, <<U("empty")>>)}, isnil |-> FALSE] }
 =============================================================================
